@@ -851,6 +851,217 @@ def _check_methods(which, case, boo, S, sysd, psi, rng):
 
 UNITS = [LthOrder(), TimeAverage(), TimeCorr(), SpatialCorr()]
 
+
+# ---------------------------------------------------------------------------------------------------------------
+# lemmas on the definition (the code is proved equal to it above): modulus bound, rotation covariance
+
+
+def _sq(x):
+    return sv.mul(x, x)
+
+
+def bound_lemmas():
+    """|sum_t a_t u_t| <= sum_t |a_t| for unit complex numbers u_t = exp(i theta_t), any real a_t, any number k of terms, by induction
+    on k (base + step obligations over the Σ-terms; the induction principle itself is the trusted rule), and the two conclusions
+    |psi| <= 1 (a_t = 1, normaliser cn;  a_t = w_t / S with S = sum |w_t| > 0)."""
+    I, R = z3.IntSort(), z3.RealSort()
+    a_, th_, w_ = z3.Function("a_seq", I, R), z3.Function("theta_seq", I, R), z3.Function("w_seq", I, R)
+    k = sv.integer("k")
+    S = sv.real("S")
+
+    def a(t):
+        return sv.SV(a_(sv.znum(t)))
+
+    def th(t):
+        return sv.SV(th_(sv.znum(t)))
+
+    def w(t):
+        return sv.SV(w_(sv.znum(t)))
+
+    def P(n):
+        sr = Sum(0, n, lambda t: sv.mul(a(t), sv.cos(th(t))))
+        si = Sum(0, n, lambda t: sv.mul(a(t), sv.sin(th(t))))
+        sa = Sum(0, n, lambda t: sv.absv(a(t)))
+        return sv.and_(sv.cmp(">=", sa, 0), sv.cmp("<=", sv.add(_sq(sr), _sq(si)), _sq(sa)))
+
+    def Q(n):   # sum_t |w_t / S| * S = sum_t |w_t|   (S > 0)
+        return sv.cmp("==", sv.mul(Sum(0, n, lambda t: sv.absv(sv.div(w(t), S))), S), Sum(0, n, lambda t: sv.absv(w(t))))
+
+    def C1(n):  # sum_{t<n} 1 = n
+        return sv.cmp("==", Sum(0, n, lambda t: sv.absv(sv.add(sv.mul(0, a(t)), 1))), n)
+    k1 = A.simp(sv.add(k, 1))
+    X, Y, Bd, n = sv.real("X"), sv.real("Y"), sv.real("Bd"), sv.integer("n")
+    # induction steps with the Σ-terms unfolded by the Σ axiom  S(k+1) = S(k) + term(k)  and S(k) generalised to arbitrary reals
+    sr, si, sa, ak, ck, sk = [sv.real(x) for x in ("S_re", "S_im", "S_abs", "a_k", "c_k", "s_k")]
+    step_bound = sv.implies(sv.and_(sv.cmp("==", sv.add(_sq(ck), _sq(sk)), 1), sa >= 0, sv.cmp("<=", sv.add(_sq(sr), _sq(si)), _sq(sa))),
+                            sv.and_(sv.cmp(">=", sv.add(sa, sv.absv(ak)), 0),
+                                    sv.cmp("<=", sv.add(_sq(sv.add(sr, sv.mul(ak, ck))), _sq(sv.add(si, sv.mul(ak, sk)))), _sq(sv.add(sa, sv.absv(ak))))))
+    return [
+        ("lemma:bound:base:k=0", P(0)),
+        ("lemma:bound:step:|S+a.u|<=sum|a|+|a|-for-unit-u", step_bound),
+        ("lemma:bound:step:sums-unfold-to-that-form", _unfold_ok(P, k, a, th)),
+        ("lemma:weights:base", sv.implies(S > 0, Q(0))),
+        ("lemma:weights:step:sum|w/S|*S=sum|w|", sv.implies(sv.and_(k >= 0, S > 0, Q(k)), Q(k1))),
+        ("lemma:count:base", C1(0)),
+        ("lemma:count:step:sum_1=k", sv.implies(sv.and_(k >= 0, C1(k)), C1(k1))),
+        # perfect l-fold environment: every bond has the same exp(i l phi) = (c0, s0)  =>  psi = (c0, s0), modulus exactly one (unweighted)
+        ("lemma:lattice:base", sv.cmp("==", Sum(0, 0, lambda t: sv.add(sv.mul(0, a(t)), S)), 0)),
+        ("lemma:lattice:step:sum-of-equal-terms=k*term", sv.implies(sv.and_(k >= 0, sv.cmp("==", Sum(0, k, lambda t: sv.add(sv.mul(0, a(t)), S)), sv.mul(k, S))),
+                                                                     sv.cmp("==", Sum(0, k1, lambda t: sv.add(sv.mul(0, a(t)), S)), sv.mul(k1, S)))),
+        ("lemma:lattice:|psi|=1-when-all-bonds-share-exp(i.l.phi)", sv.implies(sv.and_(n >= 1, sv.cmp("==", sv.add(_sq(X), _sq(Y)), 1)),
+                                                                               sv.cmp("==", sv.add(_sq(sv.div(sv.mul(n, X), n)), _sq(sv.div(sv.mul(n, Y), n))), 1))),
+        # conclusions (the Σ-terms generalised to arbitrary reals)
+        ("lemma:|psi|<=1:unweighted", sv.implies(sv.and_(n >= 1, sv.cmp("<=", sv.add(_sq(X), _sq(Y)), _sq(n))),
+                                                 sv.cmp("<=", sv.add(_sq(sv.div(X, n)), _sq(sv.div(Y, n))), 1))),
+        ("lemma:|psi|<=1:weighted", sv.implies(sv.and_(S > 0, Bd >= 0, sv.cmp("==", sv.mul(Bd, S), S), sv.cmp("<=", sv.add(_sq(X), _sq(Y)), _sq(Bd))),
+                                               sv.cmp("<=", sv.add(_sq(X), _sq(Y)), 1))),
+    ]
+
+
+def _unfold_ok(P, k, a, th):
+    """the three Σ-terms of the bound lemma at k + 1 are those at k plus the k-th term (Σ unfold axiom instances, checked by SMT)"""
+    k1 = A.simp(sv.add(k, 1))
+
+    def parts(n):
+        return (Sum(0, n, lambda t: sv.mul(a(t), sv.cos(th(t)))), Sum(0, n, lambda t: sv.mul(a(t), sv.sin(th(t)))), Sum(0, n, lambda t: sv.absv(a(t))))
+    p0, p1 = parts(k), parts(k1)
+    return sv.implies(k >= 0, sv.and_(sv.cmp("==", p1[0], sv.add(p0[0], sv.mul(a(k), sv.cos(th(k))))),
+                                      sv.cmp("==", p1[1], sv.add(p0[1], sv.mul(a(k), sv.sin(th(k))))),
+                                      sv.cmp("==", p1[2], sv.add(p0[2], sv.absv(a(k)))),
+                                      sv.cmp("==", sv.add(_sq(sv.cos(th(k))), _sq(sv.sin(th(k)))), 1)))
+
+
+def _cpow(z, l):
+    r = sv.Cx(1, 0)
+    for _ in range(l):
+        r = sv.mul(r, z)
+    return r
+
+
+def rotation_lemmas():
+    """rotation by alpha (cos alpha, sin alpha) = ((1 - tau^2)/(1 + tau^2), 2 tau/(1 + tau^2)), tau = tan(alpha/2) (every alpha != pi;
+    alpha = pi separately): positions r' = R r and cell H' = H R^T.
+      (R1) the minimum-image vector (remove_pbc contract, C02) of the rotated system is the rotated minimum-image vector — including
+           the rint terms, whose arguments (fractional coordinates) are unchanged: ring identity;
+      (R2) ((c + i s)(C + i S))^l = (c + i s)^l (C + i S)^l for l = 1..12: with exp(i l phi) = (cos phi + i sin phi)^l (de Moivre) and
+           cos phi = x/r, sin phi = y/r (atan2 axiom) this is  exp(i l phi') = exp(i l alpha) exp(i l phi)  for every bond;
+      (R3) sum_t (A x_t - B y_t) = A sum_t x_t - B sum_t y_t  (induction step; base trivial): the factor exp(i l alpha) leaves the sum."""
+    from contracts.C02 import _inv_spec, pbc_spec_row
+    out_ring, out_smt = [], []
+    tau = sv.real("tau")
+    for tag, (c, s) in (("tau", (sv.div(sv.sub(1, _sq(tau)), sv.add(1, _sq(tau))), sv.div(sv.mul(2, tau), sv.add(1, _sq(tau))))), ("alpha=pi", (-1, 0))):
+        H = [[sv.real(f"H_{a}{b}") for b in range(2)] for a in range(2)]
+        row = [sv.real("r_0"), sv.real("r_1")]
+        p = [sv.integer("p_0"), sv.integer("p_1")]
+
+        def rot(v):
+            return [sv.sub(sv.mul(c, v[0]), sv.mul(s, v[1])), sv.add(sv.mul(s, v[0]), sv.mul(c, v[1]))]
+        H2 = [rot(H[0]), rot(H[1])]
+        row2 = rot(row)
+        det, G = _inv_spec(H, 2)
+        det2, G2 = _inv_spec(H2, 2)
+        D = pbc_spec_row(row, H, G, p, 2)
+        D2 = pbc_spec_row(row2, H2, G2, p, 2)
+        want = rot(D)
+        out_ring.append((f"lemma:rotation:R1:min-image-vector-rotates-with-the-system[{tag}]",
+                         sv.and_(sv.cmp("==", D2[0], want[0]), sv.cmp("==", D2[1], want[1]), sv.cmp("==", det2, det))))
+    c, s, C_, S_ = sv.real("c"), sv.real("s"), sv.real("C"), sv.real("S")
+    for l in range(1, 13):
+        lhs = _cpow(sv.mul(sv.Cx(c, s), sv.Cx(C_, S_)), l)
+        rhs = sv.mul(_cpow(sv.Cx(c, s), l), _cpow(sv.Cx(C_, S_), l))
+        out_ring.append((f"lemma:rotation:R2:l={l}:power-of-rotated-unit-bond", sv.and_(sv.cmp("==", lhs.re, rhs.re), sv.cmp("==", lhs.im, rhs.im))))
+    I, R = z3.IntSort(), z3.RealSort()
+    x_, y_ = z3.Function("x_seq", I, R), z3.Function("y_seq", I, R)
+    Aa, Bb, k = sv.real("A"), sv.real("B"), sv.integer("k")
+
+    def L(n):
+        return sv.cmp("==", Sum(0, n, lambda t: sv.sub(sv.mul(Aa, sv.SV(x_(sv.znum(t)))), sv.mul(Bb, sv.SV(y_(sv.znum(t)))))),
+                      sv.sub(sv.mul(Aa, Sum(0, n, lambda t: sv.SV(x_(sv.znum(t))))), sv.mul(Bb, Sum(0, n, lambda t: sv.SV(y_(sv.znum(t)))))))
+    out_smt.append(("lemma:rotation:R3:base", L(0)))
+    SA, SX, SY, xk, yk = [sv.real(n_) for n_ in ("S_A", "S_X", "S_Y", "x_k", "y_k")]
+    out_ring.append(("lemma:rotation:R3:step:factor-leaves-the-sum(sums-unfolded)",
+                     sv.cmp("==", sv.add(sv.sub(sv.mul(Aa, SX), sv.mul(Bb, SY)), sv.sub(sv.mul(Aa, xk), sv.mul(Bb, yk))),
+                            sv.sub(sv.mul(Aa, sv.add(SX, xk)), sv.mul(Bb, sv.add(SY, yk))))))
+    return out_ring, out_smt
+
+
+def instance_checks(seed=0):
+    """runs under /venv/bin/python: the real boo_2d on perfect triangular (l=6) and square (l=4) lattices (|psi| = 1) and on rotated
+    copies of seeded periodic/non-periodic systems (psi' = exp(i l alpha) psi).  Instances, not proofs."""
+    import tempfile
+
+    import numpy as np
+    out = []
+    rng = np.random.default_rng(seed + 7)
+    with tempfile.TemporaryDirectory(prefix="pyvc-c10i-") as tmp:
+        for kind in ("triangular", "square"):
+            sysd, l = _lattice_system(kind)
+            for weighted in (False, True):
+                boo, _ = _make_boo(sysd, l, weighted, tmp)
+                mod = np.abs(np.asarray(boo.ParticlePhi))
+                out.append({"instance": f"perfect {kind} lattice, l={l}, {'positive weights' if weighted else 'unweighted'}: |psi| = 1",
+                            "max_deviation": float(np.abs(mod - 1).max()), "ok": bool(np.abs(mod - 1).max() < 1e-9)})
+        for trial in range(6):
+            sysd = _gen_system(rng, trial)
+            l = int(rng.integers(1, 13))
+            alpha = float(rng.uniform(-3.1, 3.1))
+            R = np.array([[np.cos(alpha), -np.sin(alpha)], [np.sin(alpha), np.cos(alpha)]])
+            rot = dict(sysd)
+            rot["pos"] = [np.array(p) @ R.T for p in sysd["pos"]]
+            rot["H"] = np.array(sysd["H"]) @ R.T
+            for weighted in (False, True):
+                b0, _ = _make_boo(sysd, l, weighted, tmp)
+                b1, _ = _make_boo(rot, l, weighted, tmp)
+                dev = float(np.abs(np.asarray(b1.ParticlePhi) - np.exp(1j * l * alpha) * np.asarray(b0.ParticlePhi)).max())
+                out.append({"instance": f"rotation by {alpha:.4f}, l={l}, ppp={np.array(sysd['ppp']).tolist()}, {'weighted' if weighted else 'unweighted'}: psi' = exp(i l alpha) psi",
+                            "max_deviation": dev, "ok": bool(dev < 1e-9)})
+    return out
+
+
+def _run_instances(repo, seed):
+    import json
+    import os
+    import subprocess
+    here = os.path.dirname(os.path.dirname(os.path.abspath(__file__)))
+    code = ("import sys, json, logging; logging.disable(logging.CRITICAL); sys.path.insert(0, %r); sys.path.insert(0, %r); "
+            "sys.path.append('/opt/veriftools/pyvenv/lib/python3.11/site-packages'); import contracts.C10 as C; "
+            "print('INSTANCES ' + json.dumps(C.instance_checks(%d)))" % (repo, here, seed))
+    try:
+        r = subprocess.run([os.environ.get("PYVC_REPLAY_PYTHON", "/venv/bin/python"), "-c", code], capture_output=True, text=True, timeout=120)
+    except subprocess.TimeoutExpired:
+        return None, "timeout"
+    for line in r.stdout.splitlines():
+        if line.startswith("INSTANCES "):
+            return json.loads(line[len("INSTANCES "):]), None
+    return None, (r.stderr or r.stdout)[-400:]
+
+
+def extra_checks(tier, seed, repo):
+    from pyvc.vc import prove_lemmas
+    ring, smt = rotation_lemmas()
+    obs = prove_lemmas("C10", bound_lemmas() + smt, timeout=10)
+    obs += prove_lemmas("C10", ring, timeout=10, opts={"ring_only": True})
+    inst, err = _run_instances(repo, seed)
+    extra = {"obligations": obs, "instance_checks": inst if inst is not None else {"error": err}}
+    for rec in inst or []:
+        if not rec["ok"]:   # an instance that fails on the real code is a violation of the statement (replayed by replay_extra)
+            obs.append({"name": "C10:instance:" + rec["instance"], "status": "REFUTED", "ms": 0, "backends": ["instance-run"], "queries": 1,
+                        "replayable": True, "failed": [{"status": "REFUTED", "reason": f"max deviation {rec['max_deviation']}", "model": None}]})
+    return extra
+
+
+def replay_extra(rec):
+    name = rec.get("obligation", "")
+    if name.startswith("C10:instance:"):
+        res = [r for r in instance_checks(int(rec.get("seed") or 0)) if not r["ok"]]
+        return {"ran": True, "failed": bool(res), "detail": json_dumps(res[:3]), "searched": 1}
+    return {"ran": False, "failed": False, "error": "lemma obligations have no concrete replay"}
+
+
+def json_dumps(x):
+    import json
+    return json.dumps(x)
+
 NOT_DECIDED = []
 TRUSTED = []
 MANIFEST = {"text": "todo", "note": "todo"}
